@@ -24,6 +24,8 @@ Fixpoint map2 {A B C} (f : A -> B -> C) (a : list A) (b : list B) : list C :=
 Fixpoint map3 {A B C D} (f : A -> B -> C -> D) (a : list A) (b : list B) (c : list C) : list D :=
   match a, b, c with x :: a', y :: b', z :: c' => f x y z :: map3 f a' b' c' | _, _, _ => [] end.
 Fixpoint iter_n {A} (n : nat) (f : A -> A) (a : A) : A := match n with O => a | S k => iter_n k f (f a) end.
+(* `for it in range(n): a = f(it, a)` with the iteration index starting at k *)
+Fixpoint iter_idx {A} (n k : nat) (f : nat -> A -> A) (a : A) : A := match n with O => a | S m => iter_idx m (S k) f (f k a) end.
 Fixpoint mapi_from {A B} (k : nat) (f : nat -> A -> B) (l : list A) : list B :=
   match l with [] => [] | x :: r => f k x :: mapi_from (S k) f r end.
 Definition map_first {A} (f : A -> A) (l : list A) : list A := match l with [] => [] | x :: r => f x :: r end.
@@ -154,9 +156,11 @@ Definition fista (eps lr sp rg : F) (nonneg : bool) (lin : vec -> vec) (UtM : ve
 Definition matvec (A : mat) (v : vec) : vec := map (fun row => dotv row v) A.
 
 (* active_set_nnls: every executed iteration ends with  x_vec = clip(support_vec, a_min=0);
-   support = the passive-set solves (LAPACK, any function), n = executed iterations *)
-Definition active_set (support : vec -> vec) (x : vec) (n : nat) : vec :=
-  iter_n n (fun x => map (clip_min zero) (support x)) x.
+   support it x = the support vector the passive-set solves (LAPACK) and the inner feasibility loop leave at iteration `it`
+   (it depends on the whole history - passive set, gradient - which for a given run is a function of `it`: any function),
+   n = executed iterations *)
+Definition active_set (support : nat -> vec -> vec) (x : vec) (n : nat) : vec :=
+  iter_idx n 0 (fun it x => map (clip_min zero) (support it x)) x.
 
 (* ---------------------------------------------------------------- non_negative_parafac (MU) *)
 Section Skeletons.
@@ -228,6 +232,52 @@ Definition non_negative_tucker (eps : F) (numf denf : nat -> tk_state -> nat -> 
   outer_loop n_iter_max 0
     (fun it st => tk_mu_core eps (numc it) (denc it) (fold_left (tk_mu_mode eps (numf it) (denf it)) (seq 0 n_modes) st))
     stop (fun st => st) (fun st => if normalize then tucker_normalize nrm st else st) init.
+(* the oracles of the real algorithm, index level.
+   prod_k M_k[idx_k, c_k] over the modes k (but `skip`) *)
+Definition tk_kron_entry (Ms : list mat) (skip : option nat) (idx c : list nat) : F :=
+  fold_left (fun acc kf =>
+               let e := nth (nth (fst kf) c 0) (nth (nth (fst kf) idx 0) (snd kf) []) zero in
+               match skip with Some m => if Nat.eqb (fst kf) m then acc else acc [*] e | None => acc [*] e end)
+            (combine (seq 0 (length Ms)) Ms) one.
+(* B = transpose(unfold(tucker_to_tensor((core, factors), skip_factor=mode), mode)):
+   B[(idx without mode), r] = sum_{c, c_mode = r} core[c] * prod_{k <> mode} F_k[idx_k, c_k] *)
+Definition tk_B_entry (core : tensor F) (Fs : list mat) (mode : nat) (idx : list nat) (r : nat) : F :=
+  fsum Op (map (fun p => let c := unravel (shape core) p in
+                         if Nat.eqb (nth mode c 0) r then nth p (data core) zero [*] tk_kron_entry Fs (Some mode) idx c else zero)
+               (seq 0 (prod (shape core)))).
+(* numerator = dot(unfold(tensor, mode), B) *)
+Definition tk_mu_num (T : tensor F) (st : tk_state) (mode : nat) : mat :=
+  let '(core, Fs) := st in
+  map (fun i => map (fun r =>
+         fsum Op (map (fun p => let idx := unravel (shape T) p in
+                                if Nat.eqb (nth mode idx 0) i then nth p (data T) zero [*] tk_B_entry core Fs mode idx r else zero)
+                      (seq 0 (prod (shape T)))))
+       (seq 0 (nth mode (shape core) 0))) (seq 0 (nth mode (shape T) 0)).
+(* dot(transpose(B), B): every index tuple of the other modes once (idx_mode = 0) *)
+Definition tk_BtB (st : tk_state) (mode : nat) : mat :=
+  let '(core, Fs) := st in
+  let sh := map (@length (list F)) Fs in
+  let R := nth mode (shape core) 0 in
+  map (fun r => map (fun s =>
+         fsum Op (map (fun p => let idx := unravel sh p in
+                                if Nat.eqb (nth mode idx 0) 0 then tk_B_entry core Fs mode idx r [*] tk_B_entry core Fs mode idx s else zero)
+                      (seq 0 (prod sh))))
+       (seq 0 R)) (seq 0 R).
+(* denominator = dot(nn_factors[mode], dot(transpose(B), B)) *)
+Definition tk_mu_den (st : tk_state) (mode : nat) : mat := matmul (nth mode (snd st) []) (tk_BtB st mode).
+(* core numerator = tucker_to_tensor((tensor, factors), transpose_factors=True) *)
+Definition tk_mu_numc (T : tensor F) (st : tk_state) : vec :=
+  let '(core, Fs) := st in
+  map (fun q => let c := unravel (shape core) q in
+                fsum Op (map (fun p => nth p (data T) zero [*] tk_kron_entry Fs None (unravel (shape T) p) c) (seq 0 (prod (shape T)))))
+      (seq 0 (prod (shape core))).
+(* core denominator = core x_0 F_0^T F_0 x_1 ... x_{N-1} F_{N-1}^T F_{N-1} *)
+Definition tk_mu_denc (st : tk_state) : vec :=
+  let '(core, Fs) := st in
+  let Gs := map (fun M => gram (ncols M) M) Fs in
+  map (fun q => let c := unravel (shape core) q in
+                fsum Op (map (fun p => nth p (data core) zero [*] tk_kron_entry Gs None c (unravel (shape core) p)) (seq 0 (prod (shape core)))))
+      (seq 0 (prod (shape core))).
 (* initialize_tucker(non_negative=True): abs of every factor and of the core *)
 Definition initialize_tucker_nn (core : tensor F) (raw : list mat) : tk_state :=
   (mk (shape core) (map (fabs Op) (data core)), map abs_mat raw).
@@ -242,7 +292,7 @@ Definition tk_hals_mode (utm utu : tk_state -> nat -> mat) (inner : tk_state -> 
 (* fista: lr, the linear map and UtM depend on the state (oracles), betas = one momentum coefficient per executed
    iteration; active set: the support oracle and the number of executed iterations *)
 Definition tk_hals_core (alg : core_alg) (feps : F) (lr : tk_state -> F) (csp : F) (lin : tk_state -> vec -> vec)
-           (cutm : tk_state -> vec) (betas : tk_state -> list F) (support : tk_state -> vec -> vec) (as_n : tk_state -> nat)
+           (cutm : tk_state -> vec) (betas : tk_state -> list F) (support : tk_state -> nat -> vec -> vec) (as_n : tk_state -> nat)
            (st : tk_state) : tk_state :=
   let '(core, Fs) := st in
   match alg with
@@ -252,7 +302,7 @@ Definition tk_hals_core (alg : core_alg) (feps : F) (lr : tk_state -> F) (csp : 
 Definition non_negative_tucker_hals (alg : core_alg) (feps : F)
            (utm utu : nat -> tk_state -> nat -> mat) (inner : nat -> tk_state -> nat -> nat) (sps : list (option F))
            (lr : nat -> tk_state -> F) (csp : F) (lin : nat -> tk_state -> vec -> vec) (cutm : nat -> tk_state -> vec)
-           (betas : nat -> tk_state -> list F) (support : nat -> tk_state -> vec -> vec) (as_n : nat -> tk_state -> nat)
+           (betas : nat -> tk_state -> list F) (support : nat -> tk_state -> nat -> vec -> vec) (as_n : nat -> tk_state -> nat)
            (stop : nat -> tk_state -> bool) (normalize : bool) (modes : list nat) (n_iter_max : nat) (init : tk_state) : tk_state :=
   outer_loop n_iter_max 0
     (fun it st => tk_hals_core alg feps (lr it) csp (lin it) (cutm it) (betas it) (support it) (as_n it)
